@@ -48,11 +48,32 @@ class RefSLC(RefTarget):
         for rule in self.forced:
             if rule.get("when", {}).get("pccc"):
                 return 0, [], rid + bytes([0x4F, rule["status"]]) + struct.pack("<H", tns)
+        def field(pos):
+            """an address field is one byte for 0..254; the byte 0xFF announces a 16-bit value in the next two bytes (DF1 manual)"""
+            if pos >= len(body):
+                raise IndexError
+            if body[pos] != 0xFF:
+                return body[pos], pos + 1
+            if pos + 3 > len(body):
+                raise IndexError
+            return body[pos + 1] | (body[pos + 2] << 8), pos + 3
+
+        def address():
+            size = body[0]
+            fno, pos = field(1)
+            tcode = body[pos]
+            element, pos = field(pos + 1)
+            sub, pos = field(pos)
+            return size, fno, tcode, element, sub, pos
+
         if fnc == 0xA2:
-            if len(body) != 5:
+            try:
+                size, fno, tcode, element, sub, pos = address()
+                if pos != len(body):
+                    raise IndexError
+            except IndexError:
                 rec["error"] = "length"
                 return 0, [], rid + bytes([0x4F, 0x10]) + struct.pack("<H", tns)
-            size, fno, tcode, element, sub = body
             rec.update(size=size, file_no=fno, file_type=tcode, element=element, sub=sub, kind="read")
             t = self.table(tcode, fno)
             if t is None or tcode not in ELEM_SIZE:
@@ -63,12 +84,15 @@ class RefSLC(RefTarget):
             rec["executed"] = True
             return 0, [], rid + bytes([0x4F, 0x00]) + struct.pack("<H", tns) + bytes(t[off:off + size])
         if fnc == 0xAB:
-            if len(body) < 7:
+            try:
+                size, fno, tcode, element, sub, pos = address()
+                if pos + 2 > len(body):
+                    raise IndexError
+            except IndexError:
                 rec["error"] = "length"
                 return 0, [], rid + bytes([0x4F, 0x10]) + struct.pack("<H", tns)
-            size, fno, tcode, element, sub = body[:5]
-            mask = struct.unpack_from("<H", body, 5)[0]
-            payload = body[7:]
+            mask = struct.unpack_from("<H", body, pos)[0]
+            payload = body[pos + 2:]
             rec.update(size=size, file_no=fno, file_type=tcode, element=element, sub=sub, mask=mask, data=bytes(payload), kind="write")
             t = self.table(tcode, fno)
             if t is None or tcode not in ELEM_SIZE:
